@@ -308,9 +308,17 @@ def run(ctx):  # noqa: C901, PLR0912, PLR0915
     for q in sorted(desc):
         wr = repo.resolve_method(q, 'update_xml_value')
         rd = repo.resolve_method(q, 'get_py_value_from_node')
-        if wr is None or rd is None or (wr.qual, rd.qual) in seen:
+        if wr is None or rd is None:
             continue
-        seen.add((wr.qual, rd.qual))
+        # one obligation per (writer, reader) pair - but a pair whose converter calls are not symmetric is judged for every
+        # class that uses it (the waiver below depends on the converter the class is constructed with)
+        cw0 = {n.attr for n in ast.walk(wr.node) if isinstance(n, ast.Attribute) and n.attr in ('to_xml', 'elem_to_xml')}
+        cr0 = {n.attr for n in ast.walk(rd.node) if isinstance(n, ast.Attribute) and n.attr in ('to_py', 'elem_to_py')}
+        asym = (('to_xml' in cw0) != ('to_py' in cr0)) or (('elem_to_xml' in cw0) != ('elem_to_py' in cr0))
+        pair_key = (wr.qual, rd.qual, q if asym else None)
+        if pair_key in seen:
+            continue
+        seen.add(pair_key)
         if any(isinstance(d, ast.Name) and d.id == 'abstractmethod' for d in wr.node.decorator_list):
             continue
         if wr.cls.name == 'CurrentTimestampAttributeProperty':
@@ -353,7 +361,8 @@ def run(ctx):  # noqa: C901, PLR0912, PLR0915
                             if isinstance(v, ast.Name) and v.id in ('py_value', 'value'):
                                 truthy.append(unparse(n.test))
         ok = bool(okl) and okc and not truthy
-        ctx.ob('C05.R2', f'{wr.cls.name}.update_xml_value / {rd.cls.name}.get_py_value_from_node', ok,
+        ctx.ob('C05.R2', f'{wr.cls.name}.update_xml_value / {rd.cls.name}.get_py_value_from_node' +
+               (f' as {repo.classes[q].name}' if asym else ''), ok,
                f'{repo.classes[q].name}: reader and writer address the same location with symmetric converter calls; the '
                f'writer omits the value only when it is None' if ok else
                f'{repo.classes[q].name}: ' + '; '.join(x for x in (
